@@ -10,6 +10,7 @@ open C04AllocModel
 open C04MfraModel
 open C04TreeModel
 open C04XrefModel
+open C04InfoModel
 
 let zarg s = z_of_hex s
 
@@ -149,6 +150,30 @@ let model_pipeline (cfg : string) (shapes : (xshape * coq_N) list) : string =
     Printf.sprintf "dec=ok|%s|i=%s,%s,%s|e0=%s,%s|e1=%s,%s" (file_obs f) i i i e0 e0 e1 e1
   | r -> "dec=" ^ cls_of r
 
+(* specificBoxLevels as getInfoLevel reads it: tokens "type:level" separated by ","; tokens without ":" or with an
+   empty type are skipped; a level that strconv.Atoi rejects is None *)
+let name_of_string (s : string) : coq_N list = L.init (S.length s) (fun i -> n_of_int (Char.code s.[i]))
+let z_of_int (i : int) : coq_Z =
+  if i = 0 then Z0 else if i > 0 then (match n_of_int i with Npos p -> Zpos p | N0 -> Z0)
+  else (match n_of_int (-i) with Npos p -> Zneg p | N0 -> Z0)
+let atoi (s : string) : coq_Z option =
+  let ok = S.length s > 0 && (let st = if s.[0] = '-' || s.[0] = '+' then 1 else 0 in
+                              S.length s > st && (let r = ref true in S.iteri (fun i c -> if i >= st && not (c >= '0' && c <= '9') then r := false) s; !r)) in
+  if ok then Some (z_of_int (int_of_string (if s.[0] = '+' then S.sub s 1 (S.length s - 1) else s))) else None
+let tokens_of_spec (spec : string) =
+  if spec = "" then [] else
+    L.filter_map (fun bl ->
+        match S.index_opt bl ':' with
+        | Some i when i >= 1 -> Some (name_of_string (S.sub bl 0 i), atoi (S.sub bl (i + 1) (S.length bl - i - 1)))
+        | _ -> None) (split_on ',' spec)
+let lines_at (st : ibox) (bt : string) (spec : string) : string =
+  match info_lines st (get_info_level (name_of_string bt) (tokens_of_spec spec)) with
+  | Ok n -> string_of_int (int_of_n n)
+  | r -> cls_of r
+let info_specs (t : string) : string list =
+  [""; "all:0"; "all:1"; "all:2"; t ^ ":1"; t ^ ":2"; "all:1," ^ t ^ ":0"; t ^ ":x"; "all:-1"; ":1,all:1"; t;
+   "all:1,all:0"; "zzzz:5,all:2," ^ t ^ ":0"; t ^ ":1,all:0"; "all:x," ^ t ^ ":3"; "all:1,:0"]
+
 let () =
   iter_lines (fun line ->
       match split_on '\t' line with
@@ -219,12 +244,31 @@ let () =
           match moof_senc_pass_x moovc (ni ms) tl with
           | Ok states ->
             "dec=ok|t=" ^ S.concat "," (L.map2 (fun tr st ->
+                let info st = S.concat ":" (L.map (lines_at st "senc") [""; "senc:1"; "all:2,senc:0"; "all:1"]) in
                 match picked_senc tr, st with
                 | None, _ -> "-"
-                | Some _, Some (a, b) -> Printf.sprintf "0:%d:%d" (int_of_n a) (int_of_n b)
-                | Some s, None -> Printf.sprintf "%s:0:0" (b01 (se_unparsed s))) tl states)
+                | Some s, Some ((a, b), iv) ->
+                  (match senc_parsed_state (se_flags s) (se_count s) (se_raw s) iv with
+                   | Some ist -> Printf.sprintf "0:%d:%d:%s" (int_of_n a) (int_of_n b) (info ist)
+                   | None -> "0:state-not-wf")
+                | Some s, None ->
+                  let raw = n_of_int (L.length (se_raw s)) in
+                  let ist = if se_unparsed s then ISencUnparsed raw else ISenc (se_flags s, se_count s, N0, N0, [], raw) in
+                  Printf.sprintf "%s:0:0:%s" (b01 (se_unparsed s)) (info ist)) tl states)
           | r -> "dec=" ^ cls_of r in
         if m = obs then Printf.printf "OK %s\n" id else Printf.printf "MISMATCH %s xref model=%s\n" id m
+      | ["I"; id; path; nmhex; hex; cls; lns] ->
+        (* Info of a table box: decode class and the number of lines at every level string *)
+        let bs = bytes_of_hex hex in
+        let bt = S.concat "" (L.map (fun x -> S.make 1 (Char.chr (int_of_n x land 255))) (bytes_of_hex nmhex)) in
+        (match state_of_box (path = "S") bs with
+         | None -> Printf.printf "MISMATCH %s info box %s is not modelled\n" id bt
+         | Some None ->
+           if cls = "err" then Printf.printf "OK %s\n" id else Printf.printf "MISMATCH %s info %s model=err\n" id bt
+         | Some (Some st) ->
+           let m = S.concat ";" (L.map (lines_at st bt) (info_specs bt)) in
+           if cls = "ok" && m = lns then Printf.printf "OK %s\n" id
+           else Printf.printf "MISMATCH %s info %s model=ok %s\n" id bt m)
       | ["C"; id; path; hex; cls; cnt; lb] ->
         (* count-field inflation of a table box: outcome class, decoded entry count and allocation bucket
            against the prologue models of C04AllocModel.v *)
